@@ -1,5 +1,5 @@
 (** C04: actions run once each, in derivation order, with the right captured text. *)
-From PegV Require Import Base.Tac Spec.Syntax Spec.Peg Spec.Tokens Model.Machine Model.Runtime Model.Gen Proofs.Top Properties.Example.
+From PegV Require Import Model.Link Proofs.LinkProofs Base.Tac Spec.Syntax Spec.Peg Spec.Tokens Model.Machine Model.Runtime Model.Gen Proofs.Top Properties.Example.
 
 (** Execute() over the tokens of a successful parse produces exactly the trace obtained by walking
     the derivation forest left to right: each action node of the derivation emits once, in order,
@@ -16,6 +16,26 @@ Print Assumptions C04_execute_trace.
 
 (** non-vacuity: on "aby" the action of the abandoned first alternative does not run again;
     Action0 runs once with text = [0,2) *)
+(** Which action is which: Compile's first passes (Model/Link.v, compared with the implementation's
+    linked tree for every grammar of the run) number the actions in the order they are met - pre-order
+    over the rules in definition order -, give each a rule of its own that carries that number, in
+    order, behind the user's rules, and leave no dangling reference. *)
+Theorem C04_action_numbering :
+  forall bodies g ptx acts, link bodies = (g, ptx, acts) ->
+    acts = flat_map acts_of bodies /\
+    ract_ids g = seq 0 (length acts) /\
+    (forall i b, nth_error bodies i = Some b -> exists b', nth_error g i = Some (RBody b')) /\
+    (forall r, In r (grammar_names g) -> r < length g) /\
+    (forall i, ptx = Some i -> i < length g).
+Proof. exact link_facts. Qed.
+Print Assumptions C04_action_numbering.
+
+Example C04_link_nonvacuous :
+  link [ESeq [EAct 7; EName 1; EName 5; EPush (EAct 8)]; EAlt [EAct 9; EName 5]] =
+  ([RBody (ESeq [EName 2; EName 1; EName 3; EPush (EName 5)]); RBody (EAlt [EName 6; EName 3]);
+    RAct 0; RNil; RNil; RAct 1; RAct 2], Some 4, [7; 8; 9]).
+Proof. vm_compute. reflexivity. Qed.
+
 Example C04_nonvacuous :
   exists st, mach_of true ex_in_ok 0 zero_state = Some (Ret true st) /\
              execute ex_g ex_ptx (live st) (0, 0) = [(0, (0, 2))].
